@@ -4,7 +4,7 @@
    directives of our own. *)
 Require Extraction.
 Require Import ExtrOcamlBasic.
-Require Import NX.Base.Prelude NX.Model.PQ NX.Model.Sink NX.Model.IPQ.
+Require Import NX.Base.Prelude NX.Model.PQ NX.Model.Sink NX.Model.IPQ NX.Model.Sim.
 Extraction Language OCaml.
 Set Extraction KeepSingleton.
 
@@ -14,4 +14,4 @@ Definition x_eslot_run (o : bool) (ops : list (sink_op Z)) := eslot_run (eslot_n
 
 Definition x_ipq_run (ops : list (ipq_op Z)) := ipq_run (ipq_empty, []) ops.
 
-Extraction "../ocaml/gen/nxmodel.ml" x_pq_run x_ebuf_run x_eslot_run x_ipq_run.
+Extraction "../ocaml/gen/nxmodel.ml" x_pq_run x_ebuf_run x_eslot_run x_ipq_run sim_exec.
